@@ -621,6 +621,9 @@ class AbstractWalkModelDiGraph(ABC):
 
         # self.write_model(f"model-{self.id}.lp")
         start_time = time.perf_counter()
+        # What was read from a previous run of the solver is not the solution of this run
+        self._solution = None
+        self.edge_vars_sol = {}
         self.solver.optimize()
         self.solve_statistics[f"solve_time_ilp"] = time.perf_counter() - start_time
         self.solve_statistics[f"solve_time"] = time.perf_counter() - self.solve_time_start
